@@ -153,8 +153,34 @@ def build_field(f):
     return Field(**kw)
 
 
-def make_options(o, mode, extra=None):
-    from utype import Options
+def make_options_class(o, mode):
+    """class-style options with inheritance (`class Base(Options): …; class Own(Base): …`): the base class — which
+    declares the opposite collecting behaviour — is used (and so initialised) by another schema first; the schema under
+    test names the subclass.  What counts is what the SUBCLASS declares (its own attributes over the inherited ones)."""
+    from utype import Options, Schema
+    kw = options_kwargs(o, mode)
+    own_mode = {"collect_errors": bool(mode[0]), "max_errors": mode[1] if mode[0] else None}
+    # the base: every non-mode option, and a collecting behaviour the subclass overrides
+    if mode[0]:
+        base_mode = {"collect_errors": True, "max_errors": 1 if mode[1] != 1 else 3} if mode[1] is None or mode[1] > 1 \
+            else {"collect_errors": False}
+    else:
+        base_mode = {"collect_errors": True}
+    base_kw = {k: v for k, v in kw.items() if k not in ("collect_errors", "max_errors")}
+    base = type("BaseOptions", (Options,), dict(base_kw, **base_mode))
+    # an earlier schema uses the base class (its instance is built here)
+    warm = type("Warm", (Schema,), {"__annotations__": {"w": int}, "__options__": base})
+    try:
+        warm(w=1)
+    except Exception:  # noqa
+        pass
+    own = dict(own_mode)
+    if "addition" in base_kw:
+        own["addition"] = base_kw["addition"]         # re-declared on the subclass as well
+    return type("OwnOptions", (base,), own)
+
+
+def options_kwargs(o, mode, extra=None):
     kw = {}
     if mode[0]:
         kw["collect_errors"] = True
@@ -172,7 +198,12 @@ def make_options(o, mode, extra=None):
             kw[k] = o[k]
     if extra:
         kw.update(extra)
-    return Options(**kw)
+    return kw
+
+
+def make_options(o, mode, extra=None):
+    from utype import Options
+    return Options(**options_kwargs(o, mode, extra))
 
 
 _addty_cache: dict = {}
@@ -526,9 +557,10 @@ def _cached(key, make):
 
 def get_decl(api, decl, o, optmode, mode, var=None, kwty=None, props=None):
     """(status, (call, object), runtime options) for the declaration in the given mode"""
-    if optmode == "class":
-        key = json.dumps([api, decl, o, mode, var, kwty, props], sort_keys=True)
-        st, v = _cached(key, lambda: build_callable(api, decl, make_options(o, mode), var, kwty, props))
+    if optmode in ("class", "optclass"):
+        key = json.dumps([api, decl, o, mode, var, kwty, props, optmode], sort_keys=True)
+        mk = make_options_class if optmode == "optclass" else make_options
+        st, v = _cached(key, lambda: build_callable(api, decl, mk(o, mode), var, kwty, props))
         return st, v, None
     key = json.dumps([api, decl, var, kwty, props], sort_keys=True)
     st, v = _cached(key, lambda: build_callable(api, decl, None, var, kwty, props))
@@ -555,7 +587,7 @@ def impl(case):
     args_j, var, kwty = case.get("args") or [], case.get("var"), case.get("kwty")
     props = case.get("props") or None
     optmode = case.get("optmode", "runtime")
-    if api != "schema":
+    if api != "schema" and optmode == "runtime":
         optmode = "class"
     pdata = [(k, dec(v)) for k, v in data]
     pargs = tuple(dec(v) for v in args_j)
@@ -999,7 +1031,7 @@ def gen_case(rng, api=None):
                     other = gen_val(rng, ty, good=True) if rng.random() < 0.5 else enc(rng.choice(INTS + STRS))
                     data.insert(i + 1, [al, v if rng.random() < 0.25 else other])
                 break
-    case = {"kind": "parse", "api": api, "optmode": rng.choice(["runtime", "class"]), "decl": decl, "opts": o, "data": data}
+    case = {"kind": "parse", "api": api, "optmode": rng.choice(["runtime", "class", "optclass"]), "decl": decl, "opts": o, "data": data}
     if kwty is not None:
         case["kwty"] = kwty
     if api == "schema" and rng.random() < 0.3:
